@@ -36,7 +36,8 @@ TRead == /\ IsEvent("Read")
 
 SkipKind == IF kind = "cb" THEN "cbskip" ELSE IF kind = "cbns" THEN "cbread" ELSE IF kind = "FILE" THEN "seek" ELSE "pipe"
 TSkip == /\ IsEvent("Skip")
-         /\ Chk("skip while lead-in not empty", s.leadin = <<>>)
+         \* (skipping goes straight to the source in every state and leaves the lead-in buffer alone: SkipCall says the
+         \*  same; the library itself only skips after a header read has drained the lead-in)
          /\ LET c == SkipCall(data, s, SkipKind, Ev.n, Results(Ev.calls))
             IN /\ Chk("skip.ok", c.ok = Ev.ok)
                /\ Chk("skip.requests", IsCb => (c.reqs = Requests(Ev.calls) /\ c.used = Len(Ev.calls)))
